@@ -15,4 +15,5 @@ CONSTANTS
   Depth = 7
   MaxIdle = 0
   HoldClose = FALSE
+  HoldAck = FALSE
 CHECK_DEADLOCK FALSE
